@@ -15,8 +15,9 @@
     Gossip::stream, slow path: TopicDropGuard::new, call            | [PSlow] (new generation,
       Subscribe (blocks for the reply), senders.write().insert      |   send MSub), [PWait],
                                                                     |   [PIns]
-    TopicDropGuard::drop: fetch_sub(1); if previous == 1            | [PDrop g] then [PSend g]
-      send_message(Unsubscribe(topic))                              |
+    TopicDropGuard::drop: previous = fetch_sub(1);                  | [PDrop g] (the decrement),
+      if previous == 1 (thread-local value, no second read of the   |   [PDec g previous] (the
+      shared counter): send_message(Unsubscribe(topic))             |   decision), [PSend g]
     manager mailbox (FIFO), Subscribe: register a new session for   | [mbox], [mstep]: [sess],
       the topic (overwriting; an overwritten session is forgotten   |   [dead] = generations
       but not stopped), Unsubscribe(topic): stop and forget the     |   whose session was
@@ -47,7 +48,8 @@ Inductive pc :=
 | PIns (g : nat)     (* reply received, about to store the guard in senders *)
 | PHold (g : nat)    (* stream() returned a handle of generation g, kept *)
 | PDrop (g : nat)    (* about to drop the handle: fetch_sub *)
-| PSend (g : nat)    (* fetch_sub returned 1: about to send Unsubscribe *)
+| PDec (g p : nat)   (* fetch_sub returned p (kept in the thread's local state): about to decide *)
+| PSend (g : nat)    (* the remembered previous value was 1: about to send Unsubscribe *)
 | PDone.
 
 Definition pc_eqb (a b : pc) : bool :=
@@ -55,6 +57,7 @@ Definition pc_eqb (a b : pc) : bool :=
   | PStream, PStream | PSlow, PSlow | PDone, PDone => true
   | PWin g, PWin h | PWait g, PWait h | PIns g, PIns h
   | PHold g, PHold h | PDrop g, PDrop h | PSend g, PSend h => Nat.eqb g h
+  | PDec g p, PDec h q => Nat.eqb g h && Nat.eqb p q
   | _, _ => false
   end.
 
@@ -128,6 +131,11 @@ Definition tstep (fixed : bool) (s : st) (i : nat) : option st :=
           Some {| ctr := set_nth (ctr s) g (pred p);
                   zeros := if p =? 1 then set_nth (zeros s) g (S (get (zeros s) g)) else zeros s;
                   cur := cur s; rlock := rlock s; mbox := mbox s; sess := sess s; dead := dead s; log := log s;
+                  thr := set_nth (thr s) i (set_pc t (PDec g p)) |}
+      | PDec g p =>
+          (* the decision uses only the value the thread's own fetch_sub returned *)
+          Some {| ctr := ctr s; zeros := zeros s; cur := cur s; rlock := rlock s; mbox := mbox s;
+                  sess := sess s; dead := dead s; log := log s;
                   thr := set_nth (thr s) i (set_pc t (if p =? 1 then PSend g else PDone)) |}
       | PSend g =>
           Some {| ctr := ctr s; zeros := zeros s; cur := cur s; rlock := rlock s;
@@ -158,6 +166,31 @@ Inductive label := LT (i : nat) | LM.
 
 Definition stepb (fixed : bool) (s : st) (l : label) : option st :=
   match l with LT i => tstep fixed s i | LM => mstep s end.
+
+(** Variant of the drop that is NOT what the code does (kept for the regression witness
+    [reread_after_decrement_refuted]): the decision re-reads the shared counter
+    ([!has_references()], i.e. counter = 0) instead of using the value its own fetch_sub returned. *)
+Definition tstep_reread (s : st) (i : nat) : option st :=
+  match nth_error (thr s) i with
+  | None => None
+  | Some t =>
+      match tpc t with
+      | PDec g _ =>
+          Some {| ctr := ctr s; zeros := zeros s; cur := cur s; rlock := rlock s; mbox := mbox s;
+                  sess := sess s; dead := dead s; log := log s;
+                  thr := set_nth (thr s) i (set_pc t (if get (ctr s) g =? 0 then PSend g else PDone)) |}
+      | _ => tstep true s i
+      end
+  end.
+
+Fixpoint run_strict_reread (s : st) (ls : list label) : option st :=
+  match ls with
+  | [] => Some s
+  | l :: r => match (match l with LT i => tstep_reread s i | LM => mstep s end) with
+              | Some s' => run_strict_reread s' r
+              | None => None
+              end
+  end.
 
 (** all labels must be enabled *)
 Fixpoint run_strict (fixed : bool) (s : st) (ls : list label) : option st :=
@@ -194,7 +227,7 @@ Definition init (flags : list bool) : st :=
   {| ctr := []; zeros := []; cur := None; rlock := 0; mbox := []; sess := None; dead := []; log := [];
      thr := map (fun d => {| tpc := PStream; tdrop := d; tpath := 0 |}) flags |}.
 
-(** every thread makes at most 6 steps, every step sends at most one message *)
+(** every thread makes at most 7 steps, every step sends at most one message *)
 Definition fuel_for (flags : list bool) : nat := 16 * (length flags) + 8.
 
 Definition run_case (fixed : bool) (flags : list bool) (ls : list label) : st :=
@@ -210,7 +243,10 @@ Definition holds (fixed : bool) (g : nat) (t : thread) : bool :=
   | _ => false
   end.
 
-Definition at_send (g : nat) (t : thread) : bool := pc_eqb (tpc t) (PSend g).
+(** thread [t] owes the Unsubscribe of generation [g]: its fetch_sub returned 1 and the message
+    is not sent yet (before or after the thread-local decision) *)
+Definition at_send (g : nat) (t : thread) : bool :=
+  pc_eqb (tpc t) (PSend g) || pc_eqb (tpc t) (PDec g 1).
 
 Definition cnt (p : thread -> bool) (l : list thread) : nat := length (filter p l).
 
